@@ -196,6 +196,17 @@ func (qt *quotaTopology) checkParentQuotaInfo(quotaName, parentName string) erro
 		if !parentInfo.IsParent {
 			return fmt.Errorf("%v has parentName %v but the parentQuotaInfo's IsParent is false", quotaName, parentName)
 		}
+		// the parent chain must reach the root without passing through the quota itself (no self-parent, no cycle)
+		for cur, steps := parentName, 0; cur != extension.RootQuotaName; steps++ {
+			if cur == quotaName || steps > len(qt.quotaInfoMap) {
+				return fmt.Errorf("%v has parentName %v which is the quota itself or one of its descendants", quotaName, parentName)
+			}
+			info, ok := qt.quotaInfoMap[cur]
+			if !ok {
+				break
+			}
+			cur = info.ParentName
+		}
 	}
 	return nil
 }
